@@ -33,7 +33,9 @@ reg('C12', 'exploration',
 reg('C01', 'exploration',
     'recorded argv/environ of really spawned processes (recording stubs under GNU make) compared '
     'with the literals the generated script specified; differential vs. option-free baseline steps',
-    'Generated build.bfg scripts place hostile strings in 25 argument contexts; real bfg9000 '
+    'Generated build.bfg scripts place hostile strings in 30 argument contexts (incl. lists and '
+    'dicts the script changes after the call, one-word option strings, options of the other '
+    'link mode); real bfg9000 '
     'configure + real GNU make + /bin/sh run them and C recording stubs log the exact argv/environ '
     'that execve delivered. Failing slots are re-run isolated and single characters / pairs are '
     'probed to name the mechanism. Quick: every printable ASCII char + Unicode sample + curated '
@@ -147,7 +149,8 @@ reg('C11', 'exploration',
     'return values of find_files/find_paths dumped from inside real configure runs compared '
     'with a naive reference matcher written from the documentation; in-process monitor of '
     'FileFilter.match pruning verdicts; dist lists from the generated rule and real archives',
-    'Random trees x documented pattern grammar x type/extra/exclude/filter/dist/cache; result '
+    'Random trees (names with glob characters, blanks, leading ~, symbolic links) x documented '
+    'pattern grammar (up to four separate ** runs) x type/extra/exclude/filter/dist/cache; result '
     'sets must lie between the reference lower and upper answers (upper only where the docs are '
     'open), every entry must exist, repeated / cache-flipped calls agree, nothing selected lies '
     'below a pruned directory, found+extra files are in the dist list.',
@@ -241,7 +244,8 @@ reg('C07', 'exploration',
     'header names admitted by calibration against hand-written Makefile / build.ninja files fed '
     'with the compilers raw -MMD output',
     'After each edit (modify / add / remove-include-then-delete / rename / move header, edit '
-    'sources, no-op, clean) and build: exit 0, program output equals the model checksum, compiled '
+    'sources, a source or a header saved with a mistake - the build fails - and put right '
+    'again, no-op, clean) and build: exit 0, program output equals the model checksum, compiled '
     'TUs are a superset of the model must-recompile set, a no-op compiles and links nothing, a '
     'vanished header that is no longer included never blocks the build, clean removes every '
     'product and clean+build restores them. Make and the reference Ninja.',
